@@ -318,6 +318,10 @@ impl<'s> Semantics<'s> {
                     let cx = self.get_register(x86_reg::X86_REG_ECX)?.get()?;
                     Expr::cmpeq(cx, expr_const(0, 32))
                 }
+                capstone::x86_insn::X86_INS_JRCXZ => {
+                    let cx = self.get_register(x86_reg::X86_REG_RCX)?.get()?;
+                    Expr::cmpeq(cx, expr_const(0, 64))
+                }
                 capstone::x86_insn::X86_INS_CMOVE
                 | capstone::x86_insn::X86_INS_JE
                 | capstone::x86_insn::X86_INS_SETE => {
